@@ -473,6 +473,13 @@ func runWorld(pt *protoTable, wj *worldJ, em *emitter, index int) error {
 		after, _ := w.sentinelDigest()
 		em.emit(map[string]interface{}{"ev": "Sentinel", "same": after == sentBefore})
 	}
+	if wj.LogOps && !wj.LedgerBelow {
+		ops := ledger.TakeOps()
+		if ops == nil {
+			ops = []fsOp{}
+		}
+		em.emit(map[string]interface{}{"ev": "FsOps", "ops": ops})
+	}
 	if wj.LedgerBelow {
 		// every real path the stack touched, as segments relative to the scratch base
 		seen := map[string]bool{}
@@ -892,6 +899,9 @@ func (env *sessionEnv) endConn(c *memConn, cj *connJ) {
 
 // probe: a fresh connection must still be served (STAT of the root answers).
 func (env *sessionEnv) probe() {
+	env.ledger.mu.Lock()
+	env.ledger.faults = nil // the fault plan belongs to the sessions, not to the liveness probe
+	env.ledger.mu.Unlock()
 	c := newMemConn(9999, &net.TCPAddr{IP: net.IPv4(127, 0, 0, 1), Port: 49999})
 	env.ln.Dial(c)
 	b, _ := env.pt.encode("STAT_FILE", map[string]uint64{}, []byte("/"))
